@@ -1,4 +1,5 @@
 import Proofs.RoundTripMsg
+import Proofs.DecodedCanon
 /-!
 # C02 — parsing inverts serialization; re-serialization is byte-exact
 
@@ -24,6 +25,41 @@ theorem C02_values :
     ∧ (∀ n, int64Min ≤ n → n ≤ int64Max → (Val.newInt n).Canon) ∧ (∀ n, n ≤ uint64Max → (Val.newUint n).Canon)
     ∧ (∀ t, floatOK t = true → (Val.newFloat t).Canon) ∧ (∀ t, timeCanon t = some t → (Val.newTime t).Canon) :=
   ⟨canon_newString, canon_newRaw, canon_newBool, canon_newInt, canon_newUint, canon_newFloat, canon_newTime⟩
+
+/-- Time: no hypothesis left — the `20060102-15:04:05.000` rendering of every UTC instant at millisecond precision
+    with a four-digit year is accepted by the parser model and re-rendered unchanged (`timeFmt` is compared with
+    Go's `Format` by the correspondence check, op `tfmt`) -/
+theorem C02_time_values (y mo d h mi s ms : Nat) (ok : TimeOK y mo d h mi s ms) :
+    (Val.newTime (timeFmt y mo d h mi s ms)).Canon := canon_newTime_fmt y mo d h mi s ms ok
+
+/-- Float: the `'f'` rendering of every finite float64 (`[-]ddd[.ddd]`, magnitude at most MaxFloat64) is accepted by
+    the model of `strconv.ParseFloat` and kept as the value's text -/
+theorem C02_float_values (neg : Bool) (ip fp : Bytes) (hi : ip ≠ [])
+    (hid : ∀ c ∈ ip, isDigit c = true) (hfd : ∀ c ∈ fp, isDigit c = true)
+    (m : Nat) (hm : parseNatAux (ip ++ fp) 0 = some m) (hb : m ≤ maxFloat64 * 10 ^ fp.length) :
+    (Val.newFloat (plainDec neg ip fp)).Canon := canon_newFloat_plain neg ip fp hi hid hfd m hm hb
+
+-- "-12.5"
+example : (Val.newFloat (plainDec true [49, 50] [53])).Canon := by
+  refine C02_float_values true [49, 50] [53] (by decide) (by decide) (by decide) 125 (by decide) ?_
+  have h13 : 13 ≤ maxFloat64 :=
+    Nat.le_trans (Nat.le_trans (by decide : 13 ≤ 2 ^ 4) (Nat.pow_le_pow_right (by decide) (by decide))) maxFloat64_big
+  have h10 : (10 : Nat) ^ ([53] : Bytes).length = 10 := rfl
+  rw [h10]
+  omega
+
+/-- every value the decoder stores, from any bytes at all, is canonical: serializing it and parsing that again
+    gives the same value (times are re-rendered to the fixed-point layout, floats keep their source text,
+    integers are re-rendered in range) -/
+theorem C02_decoded_values (v0 : Val) (d : Bytes) (v : Val) (h : v0.fromBytes d = some v) : v.Canon :=
+  fromBytes_canon v0 d v h
+
+/-- in particular the time parser's canonical text is a fixed point -/
+theorem C02_time_fixed_point (s t : Bytes) (h : timeCanon s = some t) : timeCanon t = some t := timeCanon_idem s t h
+
+-- 2024-02-29 23:59:59.999 is an instant; 2023-02-29 is not
+example : TimeOK 2024 2 29 23 59 59 999 := ⟨by decide, by decide, by decide, by decide, by decide, by decide, by decide⟩
+example : ¬ TimeOK 2023 2 29 0 0 0 0 := fun h => by have := h.hd.2; revert this; decide
 
 theorem C02_value_roundtrip_str (t : Bytes) :
     (Val.blank .str).fromBytes t = some (Val.newString t) ∧ (Val.blank .raw).fromBytes t = some (Val.newRaw (some t)) := by
